@@ -76,6 +76,18 @@ Judge(e) ==
                     (IF ~Same(post, e.src_pre) THEN {"move-lost-content"} ELSE {}) \cup
                     \* the moved-from object is empty (move construction) or holds the target's previous content (swap)
                     (IF ~(IsEmpty(e.src_post) \/ (e.op = "moveassign" /\ Same(e.src_post, pre))) THEN {"moved-from-not-empty"} ELSE {})
+              [] e.op = "stack" ->
+                    \* e.src_pre / e.src_post: the first source table; e.nsrc: number of stacked tables; e.so: order of the new dimension
+                    (IF ~Same(e.src_post, e.src_pre) THEN {"stack-changed-source"} ELSE {}) \cup
+                    (IF e.stray # 0 THEN {"stack-leaked-temporaries"} ELSE {}) \cup
+                    (IF e.kind = "bad" THEN (IF e.ok THEN {"bad-stack-accepted"} ELSE {})
+                     ELSE IF failed THEN (IF e.armed < 0 THEN {"good-stack-failed"} ELSE {})
+                     ELSE LET s == e.src_pre n == s.ndim IN
+                          IF ~(post.ndim = n + 1
+                               /\ SubSeq(post.order, 1, n) = s.order /\ post.order[n + 1] = e.so
+                               /\ SubSeq(post.nknots, 1, n) = s.nknots /\ post.nknots[n + 1] = e.nsrc + 2 + e.so + 1
+                               /\ SubSeq(post.naxes, 1, n) = s.naxes /\ post.naxes[n + 1] = e.nsrc + 2)
+                          THEN {"stack-wrong-shape"} ELSE {})
               [] e.op = "destroy" -> IF e.live # 0 THEN {"leak-at-destruction"} ELSE {}
               [] OTHER -> {}
     IN  IF e.op = "destroy" THEN (IF e.errs > 0 THEN {"allocator-misuse"} ELSE {}) \cup specific
